@@ -315,6 +315,9 @@ class Run:
             if 'queries' in self.checks and comps and got in before:
                 self.viol('auto_id_names_entity_that_owns_components', returned=got,
                           owners=list(before))
+            if 'deletion' in self.checks and comps and self.is_pending(got) and got in before:
+                # "after which the identifier is free again": not before
+                self.viol('automatic_id_handed_out_while_its_entity_awaits_deletion', returned=repr(got))
             if self.is_marked(got) and comps:
                 # an automatic id equal to one that awaits deletion: the statement does not say whether the
                 # new components are to be deleted with it; stop judging this history (counted).
